@@ -275,6 +275,9 @@ def rule_breakers():
                      'repeat with i on all', 'repeat with i from 1 on all', 'stage begin end',
                      'set "m" begin stage begin end end'):
             add('incomplete-construct', body)
+        for body in ('set "m" begin stage row 0 set "m" row 1 end', 'set "m" begin set "m" column 0 end',
+                     'set "m" begin stage row 0 set "m" begin stage row 1 end end'):
+            add('matrix-command-inside-matrix-block', body)
         if cname != 'routine':
             add('routine-redefined', 'define g on all', 'define g off all ')
         for pos, body in [('register', 'hue nosuch'), ('assign', 'assign y nosuch'), ('argument', 'f nosuch'),
